@@ -217,13 +217,16 @@ def oracle(ctx, line, res):
                     site = code.co_qualname
                 tb = tb.tb_next
         fails.append({"kind": "escaping-exception", "error": out, "site": site, "entry": f[1], "text": shown, "codepoints": f[2][:400]})
-    # (2) registries unchanged (accepted or rejected)
+    # (2) a REJECTED input leaves the registries unchanged (the property says nothing about accepted
+    #     ones; there the Lean frame theorem and the STATE digests of the correspondence apply)
     snap = ctx.snapshot()
     for name, a, b in zip(("Unit._by_name", "Unit._by_symbol", "Prefix._by_name", "Prefix._by_symbol", "Dimension._by_name"), ctx.snap, snap):
         if a.keys() != b.keys() or any(a[k] is not b[k] for k in a):
+            ctx.snap = snap
+            if out == "ok":
+                break
             fails.append({"kind": "registry-changed", "registry": name, "outcome": out, "entry": f[1], "text": shown,
                           "added": sorted(set(b) - set(a))[:5], "removed": sorted(set(a) - set(b))[:5]})
-            ctx.snap = snap
             break
     # (3) the same text again gives the same result
     first = ctx.sess.qs[-1] if (out == "ok" and f[1] == "qparse") else None
